@@ -183,6 +183,14 @@ def enum_lists(tier):
             yield {'toks': toks, 'form': 'ints', 'ae': True, 'old': []}
 
 
+def enum_all_codes(tier):
+    for n in range(256):
+        for toks in ([n], [n, 0], [1, n], [n, 1, n], [0, n]):
+            yield {'toks': [str(x) for x in toks], 'form': 'str', 'ae': False, 'old': []}
+        yield {'toks': [str(n)], 'form': 'ints', 'ae': True, 'old': ['1', '31']}
+        yield {'toks': [str(n)], 'form': 'strs', 'ae': False, 'old': ['4', '107', '38', '5', '7']}
+
+
 def strat():
     code = st.sampled_from(ALPHA + [3, 7, 9, 10, 11, 21, 23, 49, 59, 91, 101, 53, 55])
     byte = st.one_of(st.integers(0, 255), st.sampled_from([0, 1, 2, 5, 255]))
@@ -215,6 +223,7 @@ def strat():
 
 
 SUBS = [
+    Sub('all_codes', eval_case, enumerate=enum_all_codes, exhaustive_note='every code 0..255 alone, before / after a reset, around bold, on prior states'),
     Sub('lists_exhaustive', eval_case, enumerate=enum_lists,
         rule='all code lists over the 16-symbol alphabet up to length 4 (quick) / 5 (thorough), as ";"-string with add_erroneous=False and as int list with add_erroneous=True',
         exhaustive_note='every list over the 16-symbol code alphabet up to the length bound'),
